@@ -15,7 +15,7 @@ MAX_BYTES_PER_USER = 300            # keeps every interactive_t.text far away fr
 class C12(Prop):
     id = "C12"
     title = "Buffered commands are served fairly: one per user per cycle, nobody starves"
-    lean_modules = ["NV.C12.Props", "NV.C12.Witness", "NV.C12.Trace", "NV.C12.Fifo3", "NV.C12.Fifo5", "NV.C12.Neg"]
+    lean_modules = ["NV.C12.Props", "NV.C12.Witness", "NV.C12.Trace", "NV.C12.Fifo3", "NV.C12.Fifo5", "NV.C12.Neg", "NV.C12.Flag"]
     lean_modules_ = None
     theorems = [
         "NV.C12.flag_bits",
@@ -48,6 +48,8 @@ class C12(Prop):
         "NV.C12.judgeEfun_events",
         "NV.C12.judgeEv_events_eq_data",
         "NV.C12.judgeFifo_events",
+        "NV.C12.flag_sound",
+        "NV.C12.no_idle_wait",
         "NV.C12.G_run",
         "NV.C12.G_puc",
         "NV.C12.G_processIO",
